@@ -799,6 +799,10 @@ func (p *c08) RunCase(ctx *runner.Ctx) runner.CaseResult {
 	}
 	// continuation: the model skipped the failing call
 	cont := []adapt.Op{}
+	// ... and what the refused call carried is not performed by a LATER call either: the continuation starts with a
+	// well-formed batch (a put and a delete of keys the state may hold), which applies exactly what it names
+	cont = append(cont, adapt.Op{Kind: adapt.OpBatchWrite, Batch: []adapt.BatchEntry{{Table: spec.Name, Put: ixItem(mon.Pick(r, ixHashPool), mon.Pick(r, ixRangePool), "x", "1", 99)},
+		{Table: spec.Name, Del: val.Item{"h": ixV("h", "zz-none"), "r": ixV("r", mon.Pick(r, ixRangePool))}}}})
 	for i := 0; i < 5; i++ {
 		cont = append(cont, ixRandomWrite(r, spec.Name, 100+i))
 	}
